@@ -76,7 +76,9 @@ func main() {
 	if *overlay != "" {
 		args = append(args, "-overlay", *overlay)
 	}
-	args = append(args, "./...")
+	// pprof's own packages only (the harness packages under ./verifh are not instrumented
+	// and need not compile for the instrumenter to work)
+	args = append(args, ".", "./driver", "./profile", "./internal/...")
 	cmd := exec.Command("go", args...)
 	cmd.Dir = *repo
 	cmd.Stderr = os.Stderr
